@@ -236,6 +236,9 @@ func extractPlan(p *Prog) (*scanPlan, error) {
 		}
 	}
 	sort.Slice(sites, func(i, j int) bool { return sites[i].order < sites[j].order })
+	if len(sites) == 0 {
+		return nil, fmt.Errorf("%s: no lookup attempt of the form token := lookup(id…) was recognised in %s (the normalisation is organised in a way the decision-list extraction does not follow)", p.pos(norm.Pos()), norm.Name())
+	}
 	for _, s := range sites {
 		c := s.c
 		at := planAttempt{Pos: c.Pos(), Lookup: c.Call.StaticCallee().Name()}
